@@ -13,6 +13,8 @@ ASSUMPTIONS = [
     'absent group); a string with mismatched delimiters must be rejected (TypeError or ValueError) and leave the list unchanged',
     'whitespace-only strings are accepted or rejected at the implementation\'s discretion; either way the list of groups must not change',
     'the shadow list (.all) is part of the state key only, never of the oracle',
+    'the model keeps one cell per group object: extend(self) stores every object twice, so editing a group in place '
+    '(group.append) shows at every position that holds it - exactly as in a Python list of mutable objects',
 ]
 
 INITS = [
@@ -49,7 +51,7 @@ class System:
             return {'args': args, 'owner': None, 'head': '', 'tail': ''}, []
         soup = self.TexSoup(src)
         owner = soup.expr._contents[0]
-        model = [str(a) for a in owner.args]
+        model = [[str(a)] for a in owner.args]     # one cell per group object: aliases (extend(self)) share a cell
         if kind == 'cmd':
             head, tail = '\\t', ''
         elif kind == 'env':
@@ -60,7 +62,8 @@ class System:
 
     def key(self, impl, model):
         a = impl['owner'].args if impl['owner'] is not None else impl['args']
-        return (tuple(model), tuple(str(x) for x in getattr(a, 'all', ())))
+        alias = tuple(min(j for j, d in enumerate(model) if d is c) for c in model)
+        return (tuple(c[0] for c in model), alias, tuple(str(x) for x in getattr(a, 'all', ())))
 
     def enabled(self, m):
         n = len(m)
@@ -94,28 +97,28 @@ class System:
         k = op[0]
         try:
             if k == 'append':
-                m.append(op[2])
+                m.append([op[2]])
                 return ('none',)
             if k == 'extend':
-                m.extend(op[2:])
+                m.extend([g] for g in op[2:])
                 return ('none',)
             if k == 'extend_self':
                 m.extend(m)
                 return ('none',)
             if k == 'insert':
-                m.insert(op[1], op[3])
+                m.insert(op[1], [op[3]])
                 return ('none',)
             if k == 'remove':
-                m.remove(op[2])
+                m.remove([op[2]])
                 return ('none',)
             if k == 'remove_elem':
                 m.remove(m[op[1]])          # list.remove takes out the FIRST element equal to the argument
                 return ('none',)
             if k == 'pop':
-                return ('grp', m.pop(*op[1:]))
+                return ('grp', m.pop(*op[1:])[0])
             if k == 'mutate':
-                g = m[op[1]]
-                m[op[1]] = g[:-1] + 'Q' + g[-1]
+                c = m[op[1]]
+                c[0] = c[0][:-1] + 'Q' + c[0][-1]
                 return ('none',)
             if k == 'reverse':
                 m.reverse()
@@ -124,9 +127,9 @@ class System:
                 m.clear()
                 return ('none',)
             if k == 'get':
-                return ('grp', m[op[1]])
+                return ('grp', m[op[1]][0])
             if k == 'slice':
-                return ('args', m[slice(*op[1:])])
+                return ('args', [c[0] for c in m[slice(*op[1:])]])
             if k == 'bad':
                 return ('rejected',)
             if k == 'ws':
@@ -236,9 +239,10 @@ class System:
         return o
 
     def expect(self, impl, m):
-        o = {'list': list(m), 'len': len(m), 'str': ''.join(m)}
+        texts = [c[0] for c in m]
+        o = {'list': texts, 'len': len(m), 'str': ''.join(texts)}
         if impl['owner'] is not None:
-            o['owner'] = impl['head'] + ''.join(m) + impl['tail']
+            o['owner'] = impl['head'] + ''.join(texts) + impl['tail']
             o['doc'] = o['owner']
         return o
 
@@ -250,8 +254,8 @@ class System:
             o = self.observe(impl)
             if obs != ('rejected',):
                 return ({'ret': ['rejected']}, {'ret': list(obs)})
-            if o['list'] == model + [op[2]]:
-                model.append(op[2])
+            if o['list'] == [c[0] for c in model] + [op[2]]:
+                model.append([op[2]])
             e = self.expect(impl, model)
             return None if o == e else ({'state': e}, {'state': o})
         exp = self.model_step(model, op)
